@@ -51,7 +51,7 @@ type info struct {
 // source as "<kind>" or "<kind>:<signature>".
 func (in info) cls(kind, sig string) string {
 	for _, sh := range in.shapes {
-		if vk.R.KnownClass("shape/"+sh) != nil {
+		if vk.R.KnownClass("shape/"+sh) != nil && os.Getenv("FMT_NOKNOWN") == "" {
 			return "shape/" + sh
 		}
 	}
@@ -315,10 +315,14 @@ func TestVariants(t *testing.T) {
 			pol.Conv = func(c fmtin.ConvClass) bool { return c.Style != "#" }
 		}
 		v := fmtin.DrawVariant(t, pol)
-		if out, cls := fmtin.Inject(t, v.Input, 8, nil); out != nil {
-			v.Src, v.Steps = out, append(v.Steps, "inject")
-			for _, c := range cls {
-				v.Classes = append(v.Classes, "inj:"+c.String())
+		for try := 0; try < 3; try++ { // a line comment in the middle of an expression often breaks the parse
+			if out, cls := fmtin.Inject(t, v.Input, 10, nil); out != nil {
+				v.Src, v.Steps = out, append(v.Steps, "inject")
+				for _, c := range cls {
+					v.Classes = append(v.Classes, "inj:"+c.String())
+					vk.R.Class("inject=" + c.Style)
+				}
+				break
 			}
 		}
 		how := append(append([]string{v.Origin + ":" + v.Name}, v.Steps...), v.Classes...)
